@@ -503,3 +503,47 @@ func sameLoadedField(a, b ssa.Value) bool {
 	}
 	return SameValue(fa.X, fb.X)
 }
+
+// DominatedBySet reports whether every path from the function's entry to
+// target passes through at least one instruction of set (collective
+// dominance: alternatives in different branches count together).
+func DominatedBySet(set []ssa.Instruction, target ssa.Instruction) bool {
+	fn := target.Parent()
+	if fn == nil || len(fn.Blocks) == 0 {
+		return false
+	}
+	// first index of a set member per block
+	cut := map[*ssa.BasicBlock]int{}
+	for _, s := range set {
+		if s.Parent() != fn {
+			continue
+		}
+		i := InstrIndex(s)
+		if j, ok := cut[s.Block()]; !ok || i < j {
+			cut[s.Block()] = i
+		}
+	}
+	tb, ti := target.Block(), InstrIndex(target)
+	seen := map[*ssa.BasicBlock]bool{}
+	var reach func(b *ssa.BasicBlock) bool // target reachable from the start of b without passing a cut
+	reach = func(b *ssa.BasicBlock) bool {
+		if seen[b] {
+			return false
+		}
+		seen[b] = true
+		ci, hasCut := cut[b]
+		if b == tb && (!hasCut || ci > ti) {
+			return true
+		}
+		if hasCut {
+			return false
+		}
+		for _, s := range b.Succs {
+			if reach(s) {
+				return true
+			}
+		}
+		return false
+	}
+	return !reach(fn.Blocks[0])
+}
